@@ -49,6 +49,16 @@ COERCIBLE_TARGET = [
 ]
 
 
+STACKED_REQUESTS = [
+    ('#[::derive_ex::derive_ex(Deref)]\n#[::derive_ex::derive_ex(DerefMut)]', 'pub struct X(pub u8);', '0'),
+    ('#[derive_ex::derive_ex(Deref)]\n#[derive_ex::derive_ex(DerefMut, Clone)]', 'pub struct X<T> { pub a: T }', 'a'),
+    ('#[::derive_ex::derive_ex(DerefMut)]\n#[::derive_ex::derive_ex(Deref)]', 'pub struct X { pub a: u8 }', 'a'),
+    ('#[dx(Deref)]\n#[dx(DerefMut)]', 'pub struct X<T>(pub T);\nuse ::derive_ex::derive_ex as dx;', '0'),
+    ('#[derive_ex(Deref)]\n#[::derive_ex::derive_ex(DerefMut)]', 'pub struct X(pub u8);\nuse ::derive_ex::derive_ex;', '0'),
+    ('#[derive_ex(Deref)]\n#[derive_ex(DerefMut)]', 'pub struct X(pub u8);\nuse ::derive_ex::derive_ex;', '0'),
+]
+
+
 class C18(Prop):
     pid = 'C18'
     tag = 'Deref/DerefMut impls (header+body) and rejection messages'
@@ -194,6 +204,18 @@ class C18(Prop):
                 body.append('}')
                 text = ('#[derive_ex(%s)] %s' % (tl, decl)) if mode == 'A' else '#[derive(Ex)] #[derive_ex(%s)] %s' % (tl, decl)
                 mods.append(l2.Module(cid, '\n'.join(body), _Lit(text, [t.strip() for t in tl.split(',')])))
+        # the two traits requested by two attribute-macro invocations stacked on the struct, spelled with the crate path or
+        # through a renamed import (each invocation reads its own list only)
+        for k, (heads, decl, fld) in enumerate(STACKED_REQUESTS):
+            cid = 4 * 10 ** 6 + k
+            body = [heads + '\n' + decl, 'pub fn run() {', '    let mut x = X%s;' % (' { a: 5u8 }' if fld == 'a' else '(5u8)'),
+                    '    let p0 = &x.%s as *const u8 as usize;' % fld,
+                    '    let p1 = ::core::ops::Deref::deref(&x) as *const u8 as usize;', '    println!("%d\\tptr\\t{}", p0 == p1);' % cid,
+                    '    let p2 = ::core::ops::DerefMut::deref_mut(&mut x) as *mut u8 as usize;', '    println!("%d\\tmutptr\\t{}", p0 == p2);' % cid,
+                    '    *x = 7; println!("%d\\twrite\\t{}", x.%s == 7);' % (cid, fld), '}']
+            m = _Lit(heads.replace('\n', ' ') + ' ' + decl.split('\n')[0], ['Deref', 'DerefMut'])
+            m.meta['unsized'] = False
+            mods.append(l2.Module(cid, '\n'.join(body), m))
         failures, samples = [], []
         validated = 0
         exe = l2.compile_batch('c18run', mods)
